@@ -33,7 +33,7 @@ TraceEvent == /\ HasLine /\ active /\ Line.ev \notin {"Case", "End"}
 
 \* at the end every call has returned
 TraceEnd == /\ HasLine /\ active /\ Line.ev = "End"
-            /\ \A p \in OCallers : o.cs[p].at = "idle"
+            /\ OEnd(o)
             /\ o' = Blank /\ active' = FALSE /\ l' = l + 1 /\ UNCHANGED bad
 
 Normal == TraceCase \/ TraceEvent \/ TraceEnd
